@@ -267,6 +267,13 @@ fn order_by_only(a: &str, b: &str) -> bool {
 }
 
 pub const F_ORDERBY: &str = "C11-order-by-alias-choice-hash-dependent";
+pub const F_HELPERQ: &str = "C11-helper-column-qualifier-hash-dependent";
+
+/// true if the two outputs are equal once the qualifier of every `x._expr_N` is blanked
+fn helper_qualifier_only(a: &str, b: &str) -> bool {
+    let re = regex::Regex::new(r#"[A-Za-z0-9_"`]+\._expr_(\d+)"#).unwrap();
+    a != b && re.replace_all(a, "?._expr_$1") == re.replace_all(b, "?._expr_$1")
+}
 
 pub fn check(case: &Case, known: &Known) -> Outcome {
     // canonical outputs: two fresh processes per distinct call
@@ -284,6 +291,8 @@ pub fn check(case: &Case, known: &Known) -> Outcome {
         let pan = |x: &str| x.starts_with("PANIC") && x.contains("name of this column");
         if (pan(a) != pan(b)) && (a.starts_with("OK") || b.starts_with("OK")) && known.is_open(F_ORDERBY) {
             o.verdict = Verdict::Known(F_ORDERBY.into(), format!("{what}: panics or not depending on the alias choice"));
+        } else if helper_qualifier_only(a, b) && known.is_open(F_HELPERQ) {
+            o.verdict = Verdict::Known(F_HELPERQ.into(), format!("{what}: differs only in the qualifier of a helper column"));
         } else if order_by_only(a, b) && known.is_open(F_ORDERBY) {
             o.verdict = Verdict::Known(F_ORDERBY.into(), format!("{what}: differs only inside ORDER BY key lists"));
         } else if order_only(a, b) {
